@@ -480,13 +480,14 @@ fn writer_tour(case: &Value) {
             .unwrap_or_else(|| setup_failed("job of the case not found in the problem", id))
             .clone();
         let single = job.to_single().clone();
-        let place = &single.places[0];
+        let place_idx = case.get("place_index").and_then(|m| m.get(id)).and_then(|v| v.as_u64()).unwrap_or(0) as usize;
+        let place = &single.places[place_idx];
         let time = match &place.times[0] {
             TimeSpan::Window(tw) => tw.clone(),
             _ => TimeWindow::max(),
         };
         rc.route_mut().tour.insert_last(Activity {
-            place: APlace { idx: 0, location: place.location.unwrap(), duration: place.duration, time },
+            place: APlace { idx: place_idx, location: place.location.unwrap(), duration: place.duration, time },
             schedule: Schedule::new(0., 0.),
             job: Some(single),
             commute: None,
